@@ -4,6 +4,8 @@ import (
 	"fmt"
 	"os"
 	"sort"
+
+	"golang.org/x/tools/go/ssa"
 )
 
 // reviewedBounds: accesses the engine cannot prove, with the hand proof (key -> reason). A new unproven access
@@ -34,12 +36,12 @@ var ruleBnd = &Rule{
 		var obs []Ob
 		total := 0
 		for _, lx := range [][2]string{{lexerPkg, "Lexer"}, {annLexPkg, "AnnotateLexer"}} {
-			e, err := newBndEngine(c, lx[0], lx[1])
+			e, err := bndFor(c, lx[0], lx[1])
 			if err != nil {
 				obs = append(obs, Ob{Key: "BND:" + lx[1] + ":slots", Verdict: UNDECIDED, Note: err.Error()})
 				continue
 			}
-			stable := e.run()
+			stable := e.stable
 			if !stable {
 				obs = append(obs, Ob{Key: "BND:" + lx[1] + ":fixpoint", Verdict: UNDECIDED,
 					Note: fmt.Sprintf("the analysis did not reach a fixpoint (rounds=%d, gave up in %v)", e.rounds, e.giveUp)})
@@ -79,4 +81,45 @@ var ruleBnd = &Rule{
 		obs = append(obs, floor("BND/cursor-in-input", "accesses and advances of the input decided", total, 60))
 		return obs
 	},
+}
+
+// bndFor: the bounds engine of one lexer, run once per load (other rules read its entry facts)
+func bndFor(c *Ctx, pkgPath, typeName string) (*bndEngine, error) {
+	if c.bndCache == nil {
+		c.bndCache = map[string]*bndEngine{}
+	}
+	k := pkgPath + "." + typeName
+	if e, ok := c.bndCache[k]; ok {
+		if e == nil {
+			return nil, fmt.Errorf("slot unresolved: %s", k)
+		}
+		return e, nil
+	}
+	e, err := newBndEngine(c, pkgPath, typeName)
+	if err != nil {
+		c.bndCache[k] = nil
+		return nil, err
+	}
+	e.stable = e.run()
+	c.bndCache[k] = e
+	return e, nil
+}
+
+// paramLB: a lower bound of an integer parameter of a package-internal function that holds at every call site
+// (negInf: none)
+func (e *bndEngine) paramLB(p *ssa.Parameter) int64 {
+	f := p.Parent()
+	if f == nil || !e.inPkg[f] || e.open[f] || !e.stable {
+		return negInf
+	}
+	pre := e.pre[f]
+	if pre == nil || !pre.set {
+		return negInf
+	}
+	for j, q := range f.Params {
+		if q == p && j < len(pre.par) && pre.par[j].lb > -bInf {
+			return int64(pre.par[j].lb)
+		}
+	}
+	return negInf
 }
